@@ -105,6 +105,10 @@ def run(ctx):
             runs.append(fr)
             meta[rid] = (c, r)
     ctx.note("selections_with_a_result", some)
+    valid_sel = sum(1 for r in runs if r["kind"] == "cover" and not r["inErr"])
+    if valid_sel and some < 0.3 * valid_sel:
+        # not a verdict: the property does not demand a result, but a check that mostly sees "no result" proves nothing
+        raise vlib.ToolError("C07 would be vacuous: only %d of %d selections on valid documents produced a result" % (some, valid_sel))
     ctx.note("distinct_splices_walked", sum(1 for r in runs if r["kind"] == "fmt"))
     verdict = _fmt.judge(ctx, runs, "c07")
     for r in runs:
